@@ -232,10 +232,15 @@ CHECKS = {
          "optimised build with 16 KiB objects so that every threshold equality is hit, comparing bytes_allocated, collection_threshold "
          "and the reclaimed set after every step (and through UniqueRoot -> Root conversion). For whole programs every Alloc/Collect "
          "event recorded from the real heap is validated by TraceHeap.tla (decision to collect, accounting, threshold, Pacing invariant "
-         "at every allocation), and n vs 2n loop iterations must leave identical live object counts and bytes.",
-    note="What a collection reclaims in whole programs is taken from the trace (C01 decides which objects must survive). "
-         "Loop programs are a fixed catalogue of 12 shapes, not yet TLC-generated.",
-    technique="TLA+ spec + TLC exhaustive + history replay + trace validation of recorded allocation events",
+         "at every allocation), and n vs 2n loop iterations must leave identical live object counts and bytes. What must be gone after a collection "
+         "comes from the specification: Machine.tla computes the reachable set (Live) at the end of every scenario program and of every program TLC "
+         "generates from Gen.tla (loops, per-iteration variables, closures, containers, fibers), and the objects surviving a forced collection are "
+         "compared with it kind by kind on both builds (garbage kept through a stale internal pointer shows as a surplus). The pacing arithmetic "
+         "itself is also discharged over unbounded integers: spec/apalache/Pacing.tla has an inductive invariant implying Pacing, checked by Apalache.",
+    note="The loop catalogue for n-vs-2n is fixed (24 shapes); the reachable-set comparison runs on scenario products and TLC-generated programs. "
+         "A call chain of fibers that died with an uncaught error is kept alive by the implementation for as long as a closure holds a variable "
+         "of one of them; the specification models that as built (DESIGN.md 9.3).",
+    technique="TLA+ spec + TLC exhaustive + history replay + trace validation of recorded allocation events; reachable set of the reference machine vs surviving objects; Apalache inductive invariant",
     design="4 C16"),
  "C11": dict(
     level="model_checking",
